@@ -195,6 +195,13 @@ func (state *RuntimeState) u2fRegisterResponse(w http.ResponseWriter, r *http.Re
 		return
 	}
 
+	// A registration is only finished by POST (as the page's script does):
+	// checkAuth does not compare the Origin/Referer of GET requests.
+	if r.Method != "POST" {
+		state.writeFailureResponse(w, r, http.StatusMethodNotAllowed, "")
+		return
+	}
+
 	if profile.RegistrationChallenge == nil {
 		http.Error(w, "challenge not found", http.StatusBadRequest)
 		return
